@@ -191,6 +191,36 @@ def rule_r12(text, kind, in_trait, rules):
     if edits: rules.append("R12")
     return apply_edits(text, edits) if edits else text
 
+def rule_r13(text, rules):
+    """`fn f(mut self, ..) { B }` -> `fn f(self, ..) { let mut __self = self; B[self := __self] }`
+    (Verus does not support `mut self` parameters; a by-value receiver rebound to a mutable local is the same value)"""
+    toks, st = _sig_with_index(text)
+    # find `( mut self` at the start of the parameter list of this fn item
+    for i, t in enumerate(st):
+        if t.kind == "ident" and t.text == "fn":
+            j = i + 1
+            while st[j].text != "(": j += 1
+            if st[j + 1].text == "mut" and st[j + 2].text == "self" and st[j + 3].text in (",", ")"):
+                # body open
+                d = 0; k = j
+                while True:
+                    x = st[k]
+                    if x.kind == "punct":
+                        if x.text == "{" and d == 0: break
+                        if x.text in OPEN: d += 1
+                        elif x.text in CLOSE: d -= 1
+                    k += 1
+                bc = match_close(st, k)
+                edits = [(st[j + 1].start, st[j + 2].start, "")]
+                edits.append((st[k].end, st[k].end, " let mut __self = self; "))
+                for q in range(k + 1, bc):
+                    if st[q].kind == "ident" and st[q].text == "self":
+                        edits.append((st[q].start, st[q].end, "__self"))
+                rules.append("R13")
+                return apply_edits(text, edits)
+            break
+    return text
+
 def rule_r8(text, rules):
     """drop log-macro statements"""
     toks, st = _sig_with_index(text)
@@ -507,6 +537,8 @@ def extract_item(path, selector, opts, directives, findings_open):
         text = text.replace(a, b)
         pc.substs.append({"from": a, "to": b, "count": n}); rules.append("R11")
     if it.kind == "fn" or it.kind == "impl" or it.kind == "trait":
+        if it.kind == "fn":
+            text = rule_r13(text, rules)
         text = rule_r8(text, rules)
         text = rule_r9(text, rules)
         text = rule_r5(text, rules)
